@@ -60,6 +60,7 @@ fn main() {
         "version" => streams::version::run(&o, &mut rng),
         "time" => streams::time::run(&o, &mut rng),
         "cup" => streams::cup::run(&o, &mut rng),
+        "uri" => streams::uri::run(&o, &mut rng),
         "resp" => streams::resp::run(&o, &mut rng),
         "wire-req" => streams::wire_req::run(&o, &mut rng),
         s => { eprintln!("unknown stream {}", s); std::process::exit(2); }
